@@ -32,11 +32,11 @@ def num_text(x):
 
 
 def op_text(op, style):
-    return ALIAS.get(op, op) if style == 'alias' else op
+    return ALIAS.get(op, op) if style in ('alias', 'assoc') else op
 
 
-def rend(e, style='paren', ctx=-1, side=None):
-    """ctx: precedence of the enclosing binary operator (-1 none); side: 'l'/'r' position under it"""
+def rend(e, style='paren', ctx=-1, side=None, pop=None):
+    """ctx: precedence of the enclosing binary operator (-1 none); side: 'l'/'r' position under it; pop: that operator"""
     t = e[0]
     if t == 'num':
         s = num_text(e[1])
@@ -55,7 +55,7 @@ def rend(e, style='paren', ctx=-1, side=None):
         it = rend(inner, style, UNARY, 'r')
         if inner[0] not in ('var', 'abs', 'min', 'max', 'avg') or it.startswith('-') or it.startswith('('):
             it = it if it.startswith('(') and it.endswith(')') and balanced(it) else '(' + it + ')'
-        pre = '-' if t == 'neg' else (ALIAS['not'] if style == 'alias' else 'not ')
+        pre = '-' if t == 'neg' else (ALIAS['not'] if style in ('alias', 'assoc') else 'not ')
         s = pre + it
         return '(' + s + ')' if (style == 'paren' and ctx >= 0) or ctx > UNARY else s
     # binary / n-ary chains
@@ -63,10 +63,10 @@ def rend(e, style='paren', ctx=-1, side=None):
         return rend_chain(e, style, ctx, side)
     op = t
     p = PREC[op]
-    l = rend(e[1], style, p, 'l')
-    r = rend(e[2], style, p, 'r')
+    l = rend(e[1], style, p, 'l', op)
+    r = rend(e[2], style, p, 'r', op)
     s = l + ' ' + op_text(op, style) + ' ' + r
-    return wrap(s, op, p, ctx, side, style)
+    return wrap(s, op, p, ctx, side, style, pop)
 
 
 def rend_chain(e, style, ctx, side):
@@ -79,9 +79,17 @@ def rend_chain(e, style, ctx, side):
     return wrap(s, op, p, ctx, side, style)
 
 
-def wrap(s, op, p, ctx, side, style):
+def wrap(s, op, p, ctx, side, style, pop=None):
     if ctx < 0:
         return s
+    if style == 'assoc' and p == ctx and p == 0 and pop in ('implies', 'iff'):
+        # the documented shared lowest level: implies groups to the right, iff to the left, each keeping its own
+        # associativity - only the parentheses that reading requires
+        if pop == 'implies':
+            need = (side == 'l' and op == 'implies')
+        else:
+            need = (side == 'r') or (side == 'l' and op == 'implies')
+        return '(' + s + ')' if need else s
     if style == 'paren':
         return '(' + s + ')'
     need = p < ctx
